@@ -801,4 +801,40 @@ theorem aiDir_linked (c rel : Path) (h : rel ≠ []) :
   rw [if_neg hne, stripPrefix_append]
   simp [h]
 
+/-! ### what a serial run leaves in a rewrite log -/
+
+theorem take_append_take (a b : List Nat) (M : Nat) : (a ++ b.take M).take M = (a ++ b).take M := by
+  rw [List.take_append, List.take_append, List.take_take]
+  congr 2
+  omega
+
+def Op.isRw : Op → Bool
+  | .rw .. => true
+  | _ => false
+
+def Op.ev : Op → Nat
+  | .rw _ e => e
+  | _ => 0
+
+theorem seq_rlog (l : List Nat) (ops : List (Pid × Op)) (h : ∀ x ∈ ops, x.2.isRw = true)
+    (hl : l.length ≤ maxEvents) :
+    (seqRun (.rlog l) ops).events = ((ops.map (fun x => x.2.ev)).reverse ++ l).take maxEvents := by
+  induction ops generalizing l with
+  | nil => simp [seqRun, Val.events, List.take_of_length_le hl]
+  | cons x rest ih =>
+    obtain ⟨p, op⟩ := x
+    have hop := h (p, op) (by simp)
+    have hrest : ∀ x ∈ rest, x.2.isRw = true := fun x hx => h x (by simp [hx])
+    cases op with
+    | ckpt k id a e => simp [Op.isRw] at hop
+    | noteAdd k id c n => simp [Op.isRw] at hop
+    | noteBatch k id es => simp [Op.isRw] at hop
+    | rw k ev =>
+      rw [seqRun_cons]
+      have hs : (Op.rw k ev).seq (.rlog l) = .rlog ((ev :: l).take maxEvents) := by
+        simp [Op.seq, Op.noEffect, Op.write, Val.events, List.take_of_length_le hl]
+      rw [hs, ih _ hrest (List.length_take_le _ _)]
+      simp only [List.map_cons, List.reverse_cons, Op.ev, List.append_assoc, List.singleton_append]
+      exact take_append_take _ _ _
+
 end GitAi.Conc
